@@ -22,7 +22,8 @@ func (r *Runner) bashTest(ctx context.Context, expr syntax.TestExpr, classic boo
 		if classic {
 			// In the classic "test" mode, we already expanded and
 			// split the list of words, so don't redo that work.
-			return r.document(x)
+			// The words are plain literals; a backslash in them is data.
+			return x.Lit()
 		}
 		return r.literal(x)
 	case *syntax.ParenTest:
